@@ -123,6 +123,7 @@ pub fn create_port_tag<S: crate::service::Service>(
 ) -> Result<S::StaticStorage, StaticStorageCreateError> {
     node.shared
         .create_port_tag("Testing", "Failed to create test port tag", port_id)
+        .map(|port_tag| port_tag.storage)
 }
 
 pub fn does_port_tag_exist<S: crate::service::Service>(
